@@ -9,7 +9,7 @@ import math
 from fractions import Fraction
 
 from vlib import qmode, smt
-from vlib.core import Ob, Check, DISCHARGED, FAILED, UNDECIDED, ERROR, GeneratorError
+from vlib.core import Ob, Check, DISCHARGED, FAILED, UNDECIDED, ERROR, GeneratorError, guarded
 from vlib.replay import attach
 
 REL = "src/quadrature_rules.py"
